@@ -114,6 +114,60 @@ def coverage(case, obs):
     return "COVERED"
 
 
+# ---- names leg: every name-bearing AST node (NameExp, local / parameter / loop variable, local function name)
+NAME_PATS = [re.compile(r"\((?:nm|fornum|localfn) ([0-9a-f]+)@(-?\d+)\.(-?\d+)\.(-?\d+)\.(-?\d+)")]
+LIST_PAT = re.compile(r"\((?:local|forin) \[((?: [0-9a-f]+@-?\d+\.-?\d+\.-?\d+\.-?\d+(?::\d+)?)*) \]|\(fn (?:[0-9a-f]+|-) (?:[0-9a-f]+|-) [01] ([01]) \[((?: [0-9a-f]+@-?\d+\.-?\d+\.-?\d+\.-?\d+)*) \]")
+ITEM = re.compile(r"([0-9a-f]+)@(-?\d+)\.(-?\d+)\.(-?\d+)\.(-?\d+)")
+
+
+def named_locs(obs):
+    out = []
+    for p in NAME_PATS:
+        out += [m.groups() for m in p.finditer(obs)]
+    for m in LIST_PAT.finditer(obs):
+        if m.group(1) is not None:
+            out += [x.groups() for x in ITEM.finditer(m.group(1))]
+        else:
+            items = [x.groups() for x in ITEM.finditer(m.group(3) or "")]
+            # `function a:m()`: the first parameter is the synthetic `self` (placed at the method name, not in the text)
+            out += items[1:] if m.group(2) == "1" else items
+    return out
+
+
+def names_coverage(case, obs):
+    """NAMESCOVERED iff the file has a syntax error (no demand) or every name-bearing node's range lies in the document,
+    has start <= end and the text under it (LSP reading) is exactly the identifier"""
+    if not obs.startswith("OK L: P: AST:"):
+        return "NAMESCOVERED" if (obs.startswith("OK ") or obs == "TOOMANY") else "?" + obs[:12]
+    text = bytes.fromhex(case.split(" ")[0]).decode("utf8") if case.split(" ")[0] != "-" else ""
+    starts = line_starts(text)
+    for hx, sl, sc, el, ec in named_locs(obs):
+        want = bytes.fromhex(hx).decode("utf8", "replace")
+        a = pos_to_index(text, starts, int(sl) - 1, int(sc))
+        b = pos_to_index(text, starts, int(el) - 1, int(ec))
+        if a is None or b is None or a > b or text[a:b] != want:
+            return "NOTCOVERED:%s@%s.%s.%s.%s" % (want, sl, sc, el, ec)
+    return "NAMESCOVERED"
+
+
+def gen_names(rng, tier):
+    n = {"quick": 1500, "thorough": 60000, "search": 1500}[tier]
+    out = []
+    for k in range(n):
+        if rng.random() < 0.8:
+            toks = OkGen(rng, max_depth=rng.choice([1, 2, 3, 4])).chunk()
+            out.append(case_of(render_ok(toks, rng)))
+        else:
+            toks = luagen.Gen(rng, max_depth=rng.choice([1, 2, 3]), strings=rng.choice(["mixed", "unicode", "escapes"])).chunk()
+            bs = luagen.render(toks, rng, "wild")
+            try:
+                bs.decode("utf8")
+            except UnicodeDecodeError:
+                continue
+            out.append(case_of(bs))
+    return out
+
+
 PROJ = {}
 
 
@@ -135,12 +189,18 @@ def main(tier, seed):
     # the projection needs the case text: classify() calls py_spec(case) first, so remember the case there
     leg.py_spec = lambda c: (holder.__setitem__("case", c), "COVERED")[1]
     leg.spec_proj = lambda obs: coverage(holder["case"], obs)
-    legs = [leg]
+    nleg = Leg("c04.names", gen_names, skip_model=lambda m: m.startswith("SKIP"),
+               nontrivial=lambda c: len(c.split(" ")[0]) > 40,
+               describe=lambda c: bytes.fromhex(c.split(" ")[0]).decode("utf8", "replace")[:300] if c[0] != "-" else "")
+    nleg.py_spec = lambda c: (holder.__setitem__("ncase", c), "NAMESCOVERED")[1]
+    nleg.spec_proj = lambda obs: names_coverage(holder["ncase"], obs)
+    legs = [leg, nleg]
     can_run = r.impl_exe and r.model_exe and not any(k in ("corr-build", "model-build") for k, _, _ in r.build_problems)
     extra = {}
     if can_run:
         r.replay_findings({l.name: l for l in legs})
         rows = r.run_leg(leg)
+        r.run_leg(nleg)
         # the two readings of the spec (Gallina covers/slice_lsp on the model's Locs, Python slicing) must agree
         dis = 0
         cls_count = {}
